@@ -37,7 +37,12 @@ func (p recvProp) Input(in interface{}) Sx { return recvInputSx(in.(recvIn)) }
 
 func (p recvProp) Key(inp interface{}) (string, bool) {
 	in := inp.(recvIn)
-	k := fmt.Sprintf("c%v sm%v w%d cut%d:", in.Component, in.SM, in.WFail, in.Cut)
+	k := fmt.Sprintf("c%v sm%v w%d cut%d ws%v lg%v%v:", in.Component, in.SM, in.WFail, in.Cut, in.WS, in.Logged, in.ErrWithData)
+	if in.WS {
+		hist("transport:websocket")
+	} else {
+		hist("transport:stub")
+	}
 	st, nr := 0, 0
 	for _, it := range in.completeItems() {
 		k += it.T[:1]
@@ -202,7 +207,7 @@ func (p recvProp) Oracle(inp interface{}, obs Sx) (string, string) {
 
 func init() {
 	register(recvProp{id: "C05", w: 8, gen: genC05,
-		rule: "random inbound histories (0-60 items over message/presence/iq of each type with varied content, <r/>, <a/>, features and other non-stanza elements, stream errors, stream close, rejected elements), client with SM on/off and component, read chunk sizes 1/7/unlimited, optional failing answer write; distinct = role/sm/fault + item-kind sequence; non-trivial = >= 2 stanzas and (component or >= 1 <r/>)"})
+		rule: "random inbound histories (0-60 items over message/presence/iq of each type with varied content, <r/>, <a/>, features and other non-stanza elements, stream errors, stream close, rejected elements), client with SM on/off and component, read chunk sizes 1/7/unlimited, optional failing answer write; one case in nine over the real WebSocket transport (loopback websocket server, one frame per element, frames up to 28 kB); distinct = role/sm/fault + item-kind sequence; non-trivial = >= 2 stanzas and (component or >= 1 <r/>)"})
 }
 
 func genC05(r *rand.Rand, tier string) []interface{} {
@@ -230,6 +235,13 @@ func genC05(r *rand.Rand, tier string) []interface{} {
 		if !in.Component && r.Intn(6) == 0 {
 			in.WFail = 1 + r.Intn(3)
 		}
+		out = append(out, in)
+	}
+	// the same loop over the real WebSocket transport (frames up to 28 kB)
+	nws := n / 8
+	for i := 0; i < nws; i++ {
+		in := recvIn{Cut: -1, WS: true, SM: r.Intn(2) == 0, Inb: []int{0, 5}[r.Intn(2)]}
+		in.Items = wsify(genItems(r, 1+r.Intn(25), r.Intn(4) == 0, false))
 		out = append(out, in)
 	}
 	return out
